@@ -291,7 +291,7 @@ pub fn run(ctx: &Ctx, rep: &Report) -> Meta {
         rule: "signer key from a pool, n attributes, EVERY hidden set (none ... all) for n = 1..3 (quick) / 1..5 (thorough) plus generated cases, signatures issued directly and through blind issuance, commitment key over the issuer modulus; \
                positive: proof_verify true with the revealed attributes in index order, proof survives JSON; negative: every revealed attribute changed, swaps, other signer key (also b or c alone changed), other bases, other commitment key, \
                another hidden set of the same size, n+1 / n-1, range_proof_e replaced by an honest range proof for another commitment, and integer leaves of the serialised proof perturbed by +1, -1, := 0, := sibling \
-               (24-40 sampled perturbations per proof in quick, every leaf in thorough's fixed list); a refusal by panic counts as not verifying; non-trivial = (n, U) != (3, {0}); evaluations = verifier decisions"
+               (24-40 sampled perturbations per proof in quick, every leaf in thorough's fixed list); hidden-position list extended by positions >= n (appended, prepended) and by a revealed position, an honest range proof for another value transplanted onto Ce, n = 6 and 8; a refusal by panic counts as not verifying; non-trivial = (n, U) != (3, {0}); evaluations = verifier decisions"
             .into(),
         assumptions: vec!["CL2048/CL3072 in thorough only (fixture primes)".into()],
     }
